@@ -1,6 +1,12 @@
 #!/usr/bin/env python3
 """Regenerates /verif/MANIFEST.json from the list of properties the checker registers (bin/dmverif -list)
 and the per-property texts in scripts/manifest_texts.json. Properties without a registered check go to not_applicable."""
+POOL_TEXT = (' In addition, restricted to the functions reachable from this property\'s entry points (call graph with class-hierarchy '
+             'resolution of the repository\'s interfaces): the pooled function-scoped clauses found for neighbouring properties, the generic '
+             'error / received-error / presence-test / accumulator disciplines, effect dominance (no success path loses a store or file-system '
+             'operation every success path of the reviewed tree passed) and the guarded-action table of the core functions (every recorded '
+             'step of the mechanism is still performed under the same set of conditions).')
+POOL_TECH = '; call-graph reachability selects pooled clauses; must-effect summaries with callee inlining (E-DOM); rename- and order-robust guarded-action sets compared with a reviewed table (E-GUARD)'
 import json, subprocess, os, sys
 V = os.path.dirname(os.path.dirname(os.path.abspath(__file__)))
 texts = json.load(open(os.path.join(V, 'scripts', 'manifest_texts.json')))
@@ -23,11 +29,11 @@ for p in props:
             'engine': 'dmverif',
             'level_claimed': {
                 'category': 'other',
-                'text': t.get('level_text', 'structural necessary conditions of the property, decided statically and exhaustively over every path of the analysed functions of /repo'),
+                'text': t.get('level_text', 'structural necessary conditions of the property, decided statically and exhaustively over every path of the analysed functions of /repo') + POOL_TEXT,
                 'design_ref': 'DESIGN.md section 3, ' + pid,
             },
             'level_note': t.get('level_note', 'trusts go/types, go/cfg and the Go type checker; decides the listed structural clauses only, not the behaviour as a whole'),
-            'technique': t.get('technique', 'static analysis: custom go/types + go/cfg rules over the type-checked source'),
+            'technique': t.get('technique', 'static analysis: custom go/types + go/cfg rules over the type-checked source') + POOL_TECH,
         })
     else:
         na.append({'property_id': pid, 'reason': t.get('na_reason', 'no check built yet for this property (work in progress); nothing is claimed')})
